@@ -98,6 +98,16 @@ class C18:
         img = b.emit('pos_image', base, store='det', tags={'role': 'base'})
         for _ in range(rng.randint(4, 14)):
             c = rng.random()
+            if rng.random() < 0.06:
+                # the user flips a process-global xarray / numpy option at
+                # some point of the session
+                b.emit('env_option', rng.choice([
+                    {'kind': 'xr_keep_attrs', 'value': False},
+                    {'kind': 'xr_keep_attrs', 'value': True},
+                    {'kind': 'xr_keep_attrs', 'value': 'default'},
+                    {'kind': 'np_seterr', 'value': {'all': 'ignore'}},
+                    {'kind': 'np_seterr', 'value': {'all': 'warn'}}]),
+                    tags={'k': 'env'})
             if c < 0.2:
                 b.emit('normalize', {'det': img}, store='norm',
                        tags={'k': 'normalize', 'of': 'base'})
